@@ -357,7 +357,7 @@ def fast_add(solver, fmls):
 
 
 class Stats:
-    FIELDS = ('queries', 'unsat', 'sat', 'unknown', 'paths', 'branch_queries', 'solver_s', 'nontrivial')
+    FIELDS = ('queries', 'unsat', 'sat', 'unknown', 'paths', 'branch_queries', 'solver_s', 'nontrivial', 'twins_ok', 'twins_bad')
 
     def __init__(self):
         for f in self.FIELDS:
@@ -393,12 +393,29 @@ def decide(stats, facts, negated_claim, timeout_ms=None, lemmas=True, want_model
     stats.solver_s += time.time() - t0
     if r == z3.unsat:
         stats.unsat += 1
+        if not (stats.twins_ok or stats.twins_bad):
+            _reachability_twin(stats, fm, lemmas)
         return 'unsat', None
     if r == z3.sat:
         stats.sat += 1
         return 'sat', (s.model() if want_model else None)
     stats.unknown += 1
     return 'unknown', None
+
+
+def _reachability_twin(stats, fm, lemmas):
+    """vacuity guard, once per task: the same assumptions and path condition with `assert false` in place of the claim must
+    come back violated (satisfiable); an unsatisfiable twin means the first proved claim of the task was vacuous"""
+    s = z3.Solver()
+    s.set('timeout', 20000)
+    fast_add(s, fm)
+    if lemmas:
+        fast_add(s, uf_lemmas(fm, pairwise=(lemmas != 'unary')))
+    r = s.check()
+    if r == z3.sat:
+        stats.twins_ok += 1
+    elif r == z3.unsat:
+        stats.twins_bad += 1
 
 
 def refine_exact(facts, negated_claim, timeout_ms=60000):
